@@ -24,6 +24,15 @@ var jsonKeyRe = regexp.MustCompile(`"([a-z_]+)":`)
 func templateAgreement(c *Ctx, r *Report, rule string) {
 	pkg := c.PPkg["fat2"]
 	n := 0
+	// package-level functions the reference tree does not have: a template may have moved into one of them
+	helpers := map[string]*ast.FuncDecl{}
+	for _, file := range pkg.Syntax {
+		for _, d := range file.Decls {
+			if fd, ok := d.(*ast.FuncDecl); ok && fd.Recv == nil && fd.Body != nil && !referenceFuncs["fat2."+fd.Name.Name] {
+				helpers[fd.Name.Name] = fd
+			}
+		}
+	}
 	for _, file := range pkg.Syntax {
 		for _, d := range file.Decls {
 			fd, ok := d.(*ast.FuncDecl)
@@ -35,7 +44,17 @@ func templateAgreement(c *Ctx, r *Report, rule string) {
 			tags := map[string]bool{}
 			optional := map[string]bool{}
 			var templates []string
-			ast.Inspect(fd.Body, func(nd ast.Node) bool {
+			seenHelper := map[string]bool{}
+			var inspect func(nd ast.Node) bool
+			inspect = func(nd ast.Node) bool {
+				if call, ok := nd.(*ast.CallExpr); ok {
+					if id, ok := call.Fun.(*ast.Ident); ok {
+						if h := helpers[id.Name]; h != nil && !seenHelper[id.Name] {
+							seenHelper[id.Name] = true
+							ast.Inspect(h.Body, inspect)
+						}
+					}
+				}
 				switch x := nd.(type) {
 				case *ast.CompositeLit:
 					if st, ok := x.Type.(*ast.StructType); ok {
@@ -68,7 +87,8 @@ func templateAgreement(c *Ctx, r *Report, rule string) {
 					}
 				}
 				return true
-			})
+			}
+			ast.Inspect(fd.Body, inspect)
 			if len(tags) == 0 {
 				continue
 			}
@@ -119,6 +139,8 @@ func propC20(c *Ctx, r *Report) {
 	tick, max := c.tickers()
 	ruleCompactOrigin(c, r, "C20/compact-origin")
 	ruleEncoderGate(c, r, "C20/encoder-gate")
+	r.rule("C20/decimal-parse", 1, "the command line's amounts are parsed as decimal numbers")
+	ruleDecimalParse(c, r, "C20/decimal-parse")
 	{
 		scope := map[*ssa.Function]bool{}
 		for _, f := range c.Funcs {
@@ -458,6 +480,7 @@ func exclusiveKeys(c *Ctx, r *Report, rule string) {
 	}
 	// alternatives: sets of raw fields whose length contributes
 	type set map[string]bool
+	paramSub := map[*ssa.Parameter]ssa.Value{}
 	var alts func(v ssa.Value, depth int) []set
 	alts = func(v ssa.Value, depth int) []set {
 		if depth > 12 {
@@ -494,10 +517,39 @@ func exclusiveKeys(c *Ctx, r *Report, rule string) {
 			}
 			return out
 		case *ssa.Call:
+			// the expected length computed by a helper split off from the unmarshaler: its return value(s), with the
+			// helper's parameters standing for what the caller passes
+			if sc := x.Call.StaticCallee(); sc != nil && isNewHelper(sc) && sc.Blocks != nil && depth < 6 {
+				for i, a := range x.Call.Args {
+					if i < len(sc.Params) {
+						if p, isP := a.(*ssa.Parameter); isP {
+							if prev, had := paramSub[p]; had {
+								a = prev
+							}
+						}
+						paramSub[sc.Params[i]] = a
+					}
+				}
+				var out []set
+				for _, rt := range returnsIn(blockSet(sc)) {
+					if len(rt.Results) == 1 {
+						out = append(out, alts(rt.Results[0], depth+1)...)
+					}
+				}
+				if len(out) > 0 {
+					return out
+				}
+			}
 			if bi, ok := x.Call.Value.(*ssa.Builtin); ok && bi.Name() == "len" {
-				tp := typePath(x.Call.Args[0])
+				arg := x.Call.Args[0]
+				if p, isP := arg.(*ssa.Parameter); isP {
+					if a, had := paramSub[p]; had {
+						arg = a
+					}
+				}
+				tp := typePath(arg)
 				if tp == "" {
-					tp = valuePath(x.Call.Args[0])
+					tp = valuePath(arg)
 				}
 				if i := strings.LastIndex(tp, "."); i >= 0 {
 					tp = tp[i+1:]
